@@ -8,10 +8,11 @@ name=$1; prop=$2; patch=$(readlink -f "$3"); demo=$(readlink -f "$4"); pkg=$5; s
 checks=${*:-$prop}
 export GOFLAGS=-mod=mod GOPROXY=off GOSUMDB=off GOTOOLCHAIN=local
 W=$(mktemp -d /tmp/seedchk.XXXXXX)
+H=$(printf '%s' "$(readlink -f "$W")" | sha1sum | cut -c1-10)
 out=/verif/seeded/$name
 mkdir -p "$out"
 git -C /repo worktree add -q --detach "$W" HEAD || exit 3
-cleanup() { git -C /repo worktree remove --force "$W" 2>/dev/null; rm -rf "$W"; }
+cleanup() { git -C /repo worktree remove --force "$W" 2>/dev/null; rm -rf "$W"; rm -rf /verif/build/bin/*-scratch-$H /verif/build/mod-*-scratch-$H /verif/build/overlay-*-scratch-$H 2>/dev/null; }
 trap cleanup EXIT
 cd "$W"
 demoname=seed_demo_test.go
